@@ -331,18 +331,23 @@ class JSONPointer:
             uri_decode=False,
         )
 
+    def _tokens(self) -> Tuple[str, ...]:
+        # Reference tokens are strings. `parts` might hold ints or strings for
+        # the same token, depending on how this pointer was constructed.
+        return tuple(str(part) for part in self.parts)
+
     def is_relative_to(self, other: JSONPointer) -> bool:
         """Return _True_ if this pointer points to a child of _other_."""
         return (
             len(other.parts) < len(self.parts)
-            and self.parts[: len(other.parts)] == other.parts
+            and self._tokens()[: len(other.parts)] == other._tokens()
         )
 
     def __eq__(self, other: object) -> bool:
-        return isinstance(other, JSONPointer) and self.parts == other.parts
+        return isinstance(other, JSONPointer) and self._s == other._s
 
     def __hash__(self) -> int:
-        return hash(self.parts)
+        return hash(self._s)
 
     def __repr__(self) -> str:
         return f"JSONPointer({self._s!r})"
